@@ -8,6 +8,7 @@
    behaviour; the unbounded remainder by unfolding to if-trees over N arithmetic, case analysis on
    every condition and lia (tactic c_cases); plain convertibility (reflexivity) is tried first. *)
 From Coq Require Import NArith ZArith Lia Bool List.
+From Coq Require Import ZifyN ZifyBool.
 From MiV Require Import Gen.Consts Gen.Bins Model.Arith Model.CSem Gen.Funcs Proofs.Base Proofs.ArithSweeps Proofs.ArithProofs Proofs.BitsProofs Proofs.GenSweeps Proofs.GenSweepsB.
 From MiV Require Model.Span Model.Bitmap.
 From MiV Require Gen.FuncsCheck.   (* the constants folded by the translator, recomputed by Coq *)
@@ -66,8 +67,17 @@ Ltac split_ifs :=
       let E := fresh "E" in destruct c eqn:E
   end.
 (* unfold the 64-bit operations to N arithmetic, split every condition, decide by lia *)
+Ltac pow_consts :=
+  repeat match goal with
+  | |- context [2 ^ ?k] =>
+      lazymatch k with
+      | N0 => idtac | Npos _ => idtac
+      end;
+      let v := eval vm_compute in (2 ^ k) in change (2 ^ k) with v
+  end.
 Ltac c_cases :=
-  unfold wadd, wsub, wmul, wnot, wrap in *; rewrite ?W64_val in *;
+  unfold wadd, wsub, wmul, wnot, wshl, wrap in *;
+  rewrite ?N.shiftr_div_pow2, ?N.shiftl_mul_pow2 in *; pow_consts; rewrite ?W64_val in *;
   split_ifs; bool2prop; try reflexivity; try lia.
 
 (* ------------------------------------------------------------------------------------------ *)
@@ -115,8 +125,9 @@ Ltac c_congr :=
   try reflexivity;
   lazymatch goal with
   | |- (if ?c then _ else _) = (if ?c' then _ else _) =>
-      let H := fresh "Hc" in
-      assert (H : c = c') by c_congr; rewrite H; clear H; destruct c'; c_congr
+      first [ constr_eq c c'
+            | let H := fresh "Hc" in assert (H : c = c') by c_congr; rewrite H; clear H ];
+      destruct c'; c_congr
   | |- _ => first [ solve [c_cases] | (progress f_equal; c_congr) ]
   end.
 
